@@ -17,7 +17,7 @@ import tempfile
 VERIF_DIR = os.path.dirname(os.path.dirname(os.path.abspath(__file__)))
 REPO = "/repo"
 PY = "/venv/bin/python"
-TESTS = [PY, "-m", "pytest", "-q", "-p", "no:cacheprovider", "--timeout=900", "tests", "--deselect",
+TESTS = [PY, "-m", "pytest", "-q", "-p", "no:cacheprovider", "--timeout=60", "tests", "--deselect",
          "tests/proxy/integration/test_http.py::TestMITMProxy::test_mitmproxy_works"]
 
 
